@@ -32,6 +32,7 @@ type History struct {
 	mu     sync.Mutex
 	sim    *core.Sim
 	Events []Event
+	batch  []Event
 }
 
 func NewHistory(sim *core.Sim) *History { return &History{sim: sim} }
@@ -40,8 +41,45 @@ func (h *History) add(e Event) {
 	e.Seq = h.sim.Seq()
 	h.mu.Lock()
 	h.Events = append(h.Events, e)
+	// The Session reports the messages of one block by ranging over a Go map,
+	// so the order of consecutive SetSent calls is chosen by the runtime's map
+	// iteration randomisation. That order carries no meaning; the event LOG
+	// (whose hash decides determinism) gets such a batch sorted by MID.
+	if e.Kind == "setsent" && (len(h.batch) == 0 || h.batch[0].Station == e.Station) {
+		h.batch = append(h.batch, e)
+		h.mu.Unlock()
+		return
+	}
+	batch := h.batch
+	h.batch = nil
+	if e.Kind == "setsent" {
+		h.batch = []Event{e}
+	}
 	h.mu.Unlock()
+	h.logBatch(batch)
+	if e.Kind != "setsent" {
+		h.logEvent(e)
+	}
+}
+
+func (h *History) logBatch(batch []Event) {
+	sort.Slice(batch, func(i, j int) bool { return batch[i].MID < batch[j].MID })
+	for _, b := range batch {
+		h.logEvent(b)
+	}
+}
+
+func (h *History) logEvent(e Event) {
 	h.sim.Logf("mbox %s s%d %s %s rej=%v ans=%c n=%d len=%d", e.Station, e.Session, e.Kind, e.MID, e.Rejected, printable(e.Answer), e.N, len(e.Data))
+}
+
+// Flush writes a pending SetSent batch to the log (call before reading the log hash).
+func (h *History) Flush() {
+	h.mu.Lock()
+	batch := h.batch
+	h.batch = nil
+	h.mu.Unlock()
+	h.logBatch(batch)
 }
 
 func printable(b byte) byte {
@@ -56,6 +94,7 @@ func printable(b byte) byte {
 func (h *History) Record(e Event) { h.add(e) }
 
 func (h *History) Snapshot() []Event {
+	h.Flush()
 	h.mu.Lock()
 	defer h.mu.Unlock()
 	return append([]Event(nil), h.Events...)
